@@ -144,7 +144,7 @@ class C11(object):
                     "merge": rnd.random() < 0.8, "cfg": enginea.draw_cfg(rnd, max_team=4), "gstyle": 0, "image": [], "cut": 0.0}
         r = rnd.random()
         if r < 0.006:
-            ns, nf = rnd.choice([(260, 260), (258, 300)])  # > 16384 provisional labels at native capacity
+            ns, nf = rnd.choice([(260, 260), (258, 300), (366, 366)])  # > 16384 (resp. > 32768: two growths) provisional labels at native capacity
         elif ctx.tier == "thorough" and r < 0.1:
             ns, nf = rnd.randint(2, 64), rnd.randint(2, 64)
         else:
